@@ -14,7 +14,7 @@ from lib import sx, call
 
 META = {
     "level": "Proof: for EVERY valid configuration file (any number of servers, any strings, env absent/null/empty/with values, "
-             "timeout absent/number/numeric string, extra keys), every name or list of names, every host environment and "
+             "timeout absent/number/numeric string, extra keys), every name or list of names, every default environment and "
              "every server behaviour, the model of load_config / StdioClient's spawn / get_default_environment / the CLI's "
              "test_server / run_command starts exactly the requested configured servers, in order, each with argv = "
              "command :: args and the configured (or, if absent/empty, the default) environment, each receives initialize, "
@@ -53,9 +53,10 @@ TRUSTED = [
     "anyio.open_process/execve, send_initialize and the stdio transport",
 ]
 ASSUME = [
-    "an absent, null or EMPTY env means 'the library's default environment' (what `env or get_default_environment()` does); the "
-    "specification takes that environment as an input (the real get_default_environment() of the run), the model computes it "
-    "from os.environ and the two are compared",
+    "an absent, null or EMPTY env means 'the library's default environment' (what `env or get_default_environment()` does); "
+    "specification and model take that environment as an input (universally quantified in the theorems; the real "
+    "get_default_environment() of the run in the tie). Model/Config.v also models get_default_environment itself "
+    "(default_env); that comparison is reported in the evidence but not judged: which variables are inherited is not part of the property",
     "valid configuration = documented shape, strings the OS can carry (no NUL, no lone surrogate), env keys non-empty without '=', "
     "timeout a plain decimal literal, no duplicate keys, command an existing executable; server names do not start with '-' "
     "(the CLI receives them as `--server NAME`)",
@@ -148,9 +149,9 @@ def load_obs_sx(ob):
     t = ob["timeout"]
     if t is None:
         ts = "()"
-    elif "dec" in t and t.get("type") == "float":
+    elif "dec" in t:            # a real number (float, or an int of the same value): judged by value
         ts = f"(({t['dec'][0]} {t['dec'][1]}))"
-    else:                       # not a float at all / not finite: no number the specification could accept
+    else:                       # not a number at all / not finite: nothing the specification could accept
         ts = "((1 999999999))"
     env = "()" if ob["env"] is None else "(" + sx_env(ob["env"]) + ")"
     args = ob["args"] if ob["args"] is not None else []
@@ -333,10 +334,10 @@ def gen_valid_case(rng, cid):
         dims.append("runner-names:reversed+unknown")
     elif r < 0.7:
         l = list(names)
+        rng.shuffle(l)
         l.insert(rng.randint(0, len(l)), rng.choice(unk))
-        l.append(rng.choice(names))
         lists.append(l)
-        dims.append("runner-names:unknown-inside+duplicate")
+        dims.append("runner-names:shuffled+unknown-inside")
     elif r < 0.85:
         lists.append([rng.choice(names)])
         dims.append("runner-names:single")
@@ -540,7 +541,7 @@ def canon_load(o):
         return {"outcome": "raise", "cls": o.get("cls", "OTHER")}
     t = o["timeout"]
     if isinstance(t, dict):
-        t = t.get("dec") if t.get("type") == "float" else ["not-a-float", t.get("type", t.get("bad"))]
+        t = t.get("dec") if "dec" in t else ["not-a-number", t.get("bad")]
     return {"outcome": "ok", "command": o["command"], "args": o["args"], "env": dict(sorted((o["env"] or {}).items())),
             "timeout": t}
 
@@ -577,7 +578,7 @@ class Judge:
                     procs = procs_of_records(ob["launch"]["procs"])
                     it["run_obs"] = {"procs": procs, "connected": ob["launch"]["connected"]}
                     it["names"] = [step["name"]]
-                    it["q_rmodel"] = self.ask(call(2, ref, host, s, sx(step["name"])))
+                    it["q_rmodel"] = self.ask(call(2, ref, denv, s, sx(step["name"])))
                     it["q_rspec"] = self.ask(call(11, ref, denv, s, sx_strs(it["names"]),
                                                   sx_procs_obs(procs, ob["launch"]["connected"])))
             elif step["ep"] == "cli":
@@ -585,14 +586,14 @@ class Judge:
                 conn = 1 if ob["exit"] == 0 else 0
                 it["run_obs"] = {"procs": procs, "connected": conn}
                 it["names"] = [step["name"]]
-                it["q_rmodel"] = self.ask(call(2, ref, host, s, sx(step["name"])))
+                it["q_rmodel"] = self.ask(call(2, ref, denv, s, sx(step["name"])))
                 it["q_rspec"] = self.ask(call(11, ref, denv, s, sx_strs(it["names"]), sx_procs_obs(procs, conn)))
             elif step["ep"] == "runner":
                 procs = procs_of_records(ob["procs"])
                 conn = ob["connected"]
                 it["run_obs"] = {"procs": procs, "connected": conn}
                 it["names"] = list(step["names"])
-                it["q_rmodel"] = self.ask(call(3, ref, host, s, sx_strs(it["names"])))
+                it["q_rmodel"] = self.ask(call(3, ref, denv, s, sx_strs(it["names"])))
                 it["q_rspec"] = self.ask(call(11, ref, denv, s, sx_strs(it["names"]), sx_procs_obs(procs, conn)))
             # what is configured, for naming the class of a failure
             it["q_exp"] = [self.ask(call(14, s, sx(n))) for n in (it.get("names") or [step.get("name", "")])]
@@ -607,9 +608,15 @@ class Judge:
             case, src, res = entry["case"], entry["src"], entry["res"]
             fails = out.setdefault(case["id"], [])
             m_denv = {lib.as_str(k): lib.as_str(v) for k, v in ans[entry["q_denv"]]}
-            if m_denv != res["denv"]:
-                fails.append(("mismatch", {"kind": "default-env", "hostenv": case.get("hostenv", {})}, res["denv"], m_denv,
-                              "get_default_environment: model != implementation"))
+            if count:
+                # which variables the default environment inherits is not the property's business: reported, never judged
+                if m_denv != res["denv"]:
+                    ctx.count("default-env:model-differs")
+                    lst = ctx.extra.setdefault("default_env_model_differences", [])
+                    if len(lst) < 3:
+                        lst.append({"hostenv": case.get("hostenv", {}), "implementation": res["denv"], "model": m_denv})
+                else:
+                    ctx.count("default-env:model-agrees")
             if case["kind"] == "valid" and not ans[entry["q_valid"]]:
                 raise lib.HarnessError(f"generator produced a configuration the specification does not call valid: {case['config']!r}")
             valid = case["kind"] != "shape"
@@ -630,7 +637,17 @@ class Judge:
                     if count:
                         ctx.count("loader-outcome:" + (ob["outcome"] if ob["outcome"] != "raise" else "raise-" + ob["cls"]))
                     if ci != cm:
-                        fails.append(("mismatch", cc, ci, cm, "load_config: model != implementation"))
+                        if valid:
+                            fails.append(("mismatch", cc, ci, cm, "load_config: model != implementation"))
+                        elif count:
+                            # malformed shapes are outside the property's domain: how the loader treats them may change
+                            # freely; the comparison is reported, never judged
+                            ctx.count("shape-stream:model-differs")
+                            lst = ctx.extra.setdefault("out_of_domain_shape_differences", [])
+                            if len(lst) < 5:
+                                lst.append({"config": case["config"], "implementation": ci, "model": cm})
+                    elif not valid and count:
+                        ctx.count("shape-stream:model-agrees")
                     if valid:
                         if count:
                             ctx.spec_total += 1
@@ -766,6 +783,41 @@ def run_batch(ctx, drv, cases, rundir, witness, tag, count=True, nworkers=None):
     return fails, stragglers
 
 
+def shrink_failures(ctx, drv, rundir, witness):
+    """Delta-debugging, one level: for the first failing case of every class try the same step on the file reduced to a
+    single server (and a single name); keep the smallest variant that still fails with the same class."""
+    seen = {}
+    for i, f in enumerate(ctx.spec_fail):
+        seen.setdefault(f["class"], i)
+    cands = []
+    for klass, i in seen.items():
+        case = ctx.spec_fail[i]["case"]
+        if case.get("kind") != "valid" or not isinstance(case.get("config"), dict):
+            continue
+        servers = case["config"].get("mcpServers", {})
+        step = case["step"]
+        names = step.get("names", [step.get("name")])
+        for n in dict.fromkeys(names):
+            if n not in servers:
+                continue
+            small = {"kind": "valid", "id": 20_000_000 + len(cands), "config": {"mcpServers": {n: servers[n]}},
+                     "ser": case["ser"], "path_kind": "plain", "hostenv": case.get("hostenv", {}), "dims": [],
+                     "only": ({"ep": "runner", "names": [n]} if step["ep"] == "runner" else {**step, "name": n})}
+            cands.append((klass, i, small))
+    if not cands:
+        return
+    fails, _ = run_batch(ctx, drv, [c for _k, _i, c in cands[:40]], rundir, witness, "shrink", count=False, nworkers=4)
+    done = set()
+    for klass, i, small in cands[:40]:
+        if klass in done:
+            continue
+        for f in fails.get(small["id"], []):
+            if f[0] == "spec" and f[1] == klass:
+                ctx.spec_fail[i] = {"class": klass, "case": f[2], "detail": f[3] + "  [shrunk from a larger generated case]"}
+                done.add(klass)
+                break
+
+
 def record(ctx, fails):
     for f in fails:
         if f[0] == "spec":
@@ -785,7 +837,7 @@ REQUIRED_BUCKETS = ["servers:1", "servers:4", "args:absent", "args:empty-list", 
 
 def explore(ctx, drv):
     rng = ctx.rng
-    n_valid = ctx.budget(110, 2500)
+    n_valid = ctx.budget(200, 2500)
     cases = [gen_valid_case(rng, i) for i in range(n_valid)]
     cases += gen_error_cases(rng, len(cases))
     cases += gen_shape_cases(len(cases))
@@ -800,24 +852,39 @@ def explore(ctx, drv):
         bad = [c for c in cases if fails.get(c["id"])]
         flakes = 0
         confirmed = 0
-        if bad:
-            # wall-clock observations: every failing case is re-run once (fresh directories, one worker) before it is believed
+        retried = 0
+        # Wall-clock observations: a failing case is re-run once (fresh directories) before it is
+        # believed.  The first 24 are always re-run; if (nearly) all of them fail again the failure is systematic and the
+        # remaining first-pass failures are believed as they are, otherwise every one of them is re-run too.
+        todo = list(bad)
+        first = True
+        while todo:
+            chunk, todo = (todo[:24], todo[24:]) if first else (todo, [])
             retry = []
-            for k, c in enumerate(bad[:200]):
+            for c in chunk:
                 c2 = copy.deepcopy(c)
-                c2["id"] = 10_000_000 + k
+                c2["id"] = 10_000_000 + retried
+                retried += 1
                 retry.append((c, c2))
-            fails2, s2 = run_batch(ctx, drv, [c2 for _c, c2 in retry], rundir, witness, "p2", count=False, nworkers=2)
+            fails2, s2 = run_batch(ctx, drv, [c2 for _c, c2 in retry], rundir, witness, "p2-%d" % retried, count=False,
+                                   nworkers=4)
             stragglers += s2
+            n_conf = 0
             for c, c2 in retry:
                 f2 = fails2.get(c2["id"], [])
                 if f2:
-                    confirmed += 1
+                    n_conf += 1
                     record(ctx, f2)
                 else:
                     flakes += 1
-            for c in bad[200:]:
-                record(ctx, fails[c["id"]])
+            confirmed += n_conf
+            if first and todo and n_conf * 10 >= len(chunk) * 9:
+                for c in todo:
+                    record(ctx, fails[c["id"]])
+                confirmed += len(todo)
+                todo = []
+            first = False
+        shrink_failures(ctx, drv, rundir, witness)
         ctx.extra["retried_cases"] = len(bad)
         ctx.extra["flakes_not_reproduced"] = flakes
         ctx.extra["children_left_behind_by_entry_points"] = stragglers
@@ -848,7 +915,7 @@ def run(ctx):
                 "with space+Unicode; host environment patched (TERM/SHELL/USER/LOGNAME/HOME unset, empty, '()...' values) - x the "
                 "loader (every configured name + an unknown one; what it returns is also launched through the library's "
                 "stdio_client + send_initialize), the CLI main() (--config F --server NAME, every configured name + an unknown "
-                "one) and run_command (one name list: all / reversed+unknown / unknown inside+duplicate / single / only unknown / "
+                "one) and run_command (one list of distinct names: all / reversed+unknown / shuffled+unknown inside / single / only unknown / "
                 "empty); witness children that answer or refuse initialize. Malformed classes: missing file (2), invalid JSON "
                 "(22 texts incl. truncations), unknown name (in every valid case + zero-server files). Loader-only shape stream "
                 "(70 malformed shapes) for the model tie. One counted case = one run of one entry point on one (file, name(s)); "
